@@ -123,3 +123,19 @@ def _print_ast(I, args, kwargs):
 
 from pyvc.val import SV   # noqa
 models.NATIVE[G.print_ast] = _print_ast
+
+
+# ---------------------------------------------------------------- field / argument / enum value records
+V.REG.register(G.GraphQLArgument, ["type", "default_value", "description", "deprecation_reason"],
+               build=lambda type=None, default_value=G.Undefined, description=None, deprecation_reason=None:
+               G.GraphQLArgument(type or G.GraphQLInt, default_value=default_value, description=_descr(description), deprecation_reason=_descr(deprecation_reason)))
+V.REG.register(G.GraphQLInputField, ["type", "default_value", "description", "deprecation_reason"],
+               build=lambda type=None, default_value=G.Undefined, description=None, deprecation_reason=None:
+               G.GraphQLInputField(type or G.GraphQLInt, default_value=default_value, description=_descr(description), deprecation_reason=_descr(deprecation_reason)))
+V.REG.register(G.GraphQLField, ["type", "args", "description", "deprecation_reason"],
+               build=lambda type=None, args=None, description=None, deprecation_reason=None:
+               G.GraphQLField(type or G.GraphQLInt, args={k: v for k, v in (args or {}).items() if isinstance(v, G.GraphQLArgument)}, description=_descr(description), deprecation_reason=_descr(deprecation_reason)))
+V.REG.register(G.GraphQLEnumValue, ["value", "description", "deprecation_reason"],
+               build=lambda value=None, description=None, deprecation_reason=None: G.GraphQLEnumValue(value, description=_descr(description), deprecation_reason=_descr(deprecation_reason)))
+
+UNDEFINED = V.VAtom(z3.IntVal(V.REG.atom(G.Undefined, "Undefined")))
